@@ -22,7 +22,8 @@ EXPLANATION = (
     "constant sequence of names indexed by a packet value is walked entry by entry with an IndexError edge; no abstract path of these entry points leaves by exception; E4 - every self./state/factory call resolves and "
     "no name is undefined on these paths; E5 - a packet that does not belong to the current state/profile, and a failed "
     "decode, cause no delivery, no Deferred success, no registry change. Does not decide value-level decoding faults that "
-    "do not raise (e.g. a truncated QoS 0 PUBLISH delivered short).")
+    "do not raise (e.g. a truncated QoS 0 PUBLISH delivered short). "
+    " E7 - decodeString decodes strictly: bytes that are not UTF-8 raise (and the wrappers abort) instead of being replaced or ignored.")
 ASSUMPTIONS = ["after abortConnection() the transport delivers connectionLost, which settles pending requests (C11/C12/C13)"]
 
 
@@ -256,6 +257,13 @@ def check(ctx):
            function="mqtt.pdu.decode16Int", construct="mqtt.pdu.decode16Int/lenient",
            msg="decode16Int reads the 16-bit field through a slice: a packet cut short inside a packet identifier is decoded (missing bytes "
                "count as nothing) instead of raising, so the truncated packet has the effect of a well-formed one")
+    # E7: invalid UTF-8 in a string field is "malformed input": the decoder must raise on it (the handlers' wrappers then abort the
+    # connection), not replace / ignore the bad bytes and hand the application a PUBLISH no broker packet justified
+    se = _facts.get("string_errors")
+    ctx.ob("E7", "decodeString faults on bytes that are not valid UTF-8", se is None, where="src/mqtt/pdu.py:%d" % (se[1].lineno if se is not None else 0),
+           function="mqtt.pdu.decodeString", construct="mqtt.pdu.decodeString/lenient-utf8",
+           msg="decodeString decodes with errors=%r: a PUBLISH whose topic is not valid UTF-8 is delivered (onPublish, PUBACK / PUBREC) with "
+               "altered text instead of aborting the connection" % (se[0] if se is not None else None))
     ctx.floor("decode events over contexts", n_dec, 12)
     ctx.floor("network and timer paths", n_paths, 40)
 
